@@ -396,7 +396,7 @@ class Interp:
                     self.elem_idx_term[s] = S.term(elem_of[1])  # the index as known when the element was read
         if prov and self.hooks:
             for h in self.hooks:
-                h("elem_read", interp=self, prov=prov, off=off, value=out, state=S)
+                h("elem_read", interp=self, prov=prov, off=off, value=out, state=S, index=(elem_of[1] if elem_of is not None and not isinstance(elem_of[1], tuple) else None))
         return out
 
     # ------------------------------------------------------------------ memory
